@@ -321,12 +321,92 @@ def run_impl(case):
             o3, _ = _fit(case, tuple(range(P)), est=estB)
             keys = ("eigenvalues", "coef", "psi", "pace", "rec", "mean", "xi")
             out["refit_other"] = bool("error" not in o3 and all(_same(fits[0][k], o3[k]) for k in keys))
+    # read-only-looking calls must not write state: fit(train) -> snapshot -> transform(OTHER data) /
+    # transform(None) / inverse_transform -> snapshot again; reconstructions before / after must agree
+    if "error" not in fits[0]:
+        out.update(_readonly_history(case, P))
     # unknown options are rejected
     try:
         est0.transform(method="nope")
         out["bad_method"] = "accepted"
     except Exception as e:  # noqa: BLE001
         out["bad_method"] = type(e).__name__
+    return out
+
+
+def _snapshot(est):
+    snap = dict(
+        weights=np.array(est.weights, dtype=float, copy=True),
+        eigenvalues=np.array(est.eigenvalues, dtype=float, copy=True),
+        coef=[np.array(e.coefficients, dtype=float, copy=True) for e in est.eigenfunctions.data],
+        mean=[np.array(m.values, dtype=float, copy=True) for m in est.mean.data],
+        xi=np.array(est._scores_univariate, dtype=float, copy=True),
+        eigenvectors=np.array(est._eigenvectors, dtype=float, copy=True),
+        n_components=est.n_components, normalize=est.normalize, method=est.method,
+    )
+    return snap
+
+
+def _snap_diff(a, b):
+    bad = []
+    for k in a:
+        if isinstance(a[k], list):
+            same = len(a[k]) == len(b[k]) and all(np.array_equal(x, y, equal_nan=True) for x, y in zip(a[k], b[k]))
+        elif isinstance(a[k], np.ndarray):
+            same = a[k].shape == np.shape(b[k]) and np.array_equal(a[k], b[k], equal_nan=True)
+        else:
+            same = a[k] == b[k]
+        if not same:
+            bad.append(k)
+    return bad
+
+
+def _readonly_history(case, P):
+    out = {}
+    order = tuple(range(P))
+    o, est = _fit(case, order)
+    if "error" in o:
+        return out
+    other = dict(case)
+    other["comps"] = [dict(t=c["t"], X=[[rs(3 * F(x) + Fraction(j, 8)) for j, x in enumerate(r[::-1])] for r in c["X"][::-1]])
+                      for c in case["comps"]]
+    data_other = _mfd(other["comps"], order)
+    data_train = _mfd(case["comps"], order)
+    S = np.asarray(est.transform(method="PACE"))
+    steps = []
+    changed = []
+    with warnings.catch_warnings():
+        warnings.simplefilter("ignore")
+        with np.errstate(all="ignore"):
+            snap0 = _snapshot(est)
+            rec0 = [np.array(r.values, copy=True) for r in est.inverse_transform(S).data]
+            for name, call in (
+                ("inverse_transform", lambda: est.inverse_transform(S)),
+                ("transform(None,PACE)", lambda: est.transform(method="PACE")),
+                ("transform(None,NumInt)", lambda: est.transform(method="NumInt")),
+                ("transform(other,NumInt)", lambda: est.transform(data_other, method="NumInt")),
+                ("transform(other,PACE)", lambda: est.transform(data_other, method="PACE")),
+                ("transform(train,NumInt)", lambda: est.transform(data_train, method="NumInt")),
+            ):
+                try:
+                    call()
+                except Exception as e:  # noqa: BLE001
+                    steps.append(f"{name}: {type(e).__name__}")
+                    continue
+                d = _snap_diff(snap0, _snapshot(est))
+                if d:
+                    changed.append(f"{name} changed {d}")
+                    break
+            rec1 = [np.array(r.values, copy=True) for r in est.inverse_transform(S).data]
+            S1 = np.asarray(est.transform(method="PACE"))
+    out["ro_changed"] = changed
+    out["ro_errors"] = steps
+    out["ro_rec_same"] = bool(all(np.array_equal(a, b, equal_nan=True) for a, b in zip(rec0, rec1)) and np.array_equal(S, S1, equal_nan=True))
+    dev = 0.0
+    for a, b in zip(rec0, rec1):
+        if np.isfinite(a).all() and np.isfinite(b).all() and a.size:
+            dev = max(dev, float(np.abs(a - b).max()) / max(float(np.abs(a).max()), 1e-300))
+    out["ro_rec_dev"] = dev
     return out
 
 
@@ -499,6 +579,15 @@ def _compare_fit(case, f, outs, pos, stats):
     zmax = max([abs(float(x)) for r in Z for x in r] + [1e-300])
     rmax = max([abs(float(x)) for r in res for x in r] + [0.0])
     stats["eig_residual"] = max(stats.get("eig_residual", 0.0), rmax / zmax)
+    # enforced for the pairs with a positive eigenvalue: the captured output must be RIGHT eigenpairs of the exact matrix
+    nuf = [float(x) for x in f["nu"]]
+    for m in range(K):
+        if nuf[m] > 1e-10 * max(max(nuf), 1e-300):
+            rm = max(abs(float(res[j][m])) for j in range(M))
+            cmx = max(abs(float(f["c"][j][m])) for j in range(M)) + 1e-300
+            if rm > 1e-7 * zmax * cmx * M:
+                ds.append(f"solver contract: captured pair {m} is not an eigenpair of the matrix handed to _compute_eigen (exact residual {rm:.3g}, |Z| {zmax:.3g})")
+                break
     # eigenfunction coefficients: W / (√ν √normSqProj)
     A = np.concatenate([np.asarray(cf, dtype=float).T for cf in f["coef"]], axis=0) if K else np.zeros((M, 0))
     okA = _finite(A) and K > 0
@@ -611,6 +700,27 @@ def _prod_gram(case, f):
     return G
 
 
+def _gram_explained_by_means(xi, Bd, c, nu):
+    """Product-space Gram matrix predicted for the coded weights when (ν, c) are RIGHT eigenpairs of B·cov(ξ) and the
+    only defect is that the weights use the uncentred second moment Q̃ = Q + κ μμᵀ:
+    W_mᵀBW_l = ν_l c_mᵀQc_l + κ(μ·c_m)(μ·c_l)(ν_m + ν_l) + κ²(μ·c_m)(μ·c_l) μᵀBμ,  ρ_m² = ν_m(c_mᵀQc_m + κ(μ·c_m)²)."""
+    N = xi.shape[0]
+    kappa = N / (N - 1.0)
+    mu = xi.mean(axis=0)
+    Q = np.atleast_2d(np.cov(xi.T))
+    a = mu @ c  # μ·c_m
+    cQc = c.T @ Q @ c
+    mBm = float(mu @ Bd @ mu)
+    K = c.shape[1]
+    num = np.zeros((K, K))
+    for m in range(K):
+        for l in range(K):
+            num[m, l] = nu[l] * cQc[m, l] + kappa * a[m] * a[l] * (nu[m] + nu[l]) + kappa ** 2 * a[m] * a[l] * mBm
+    with np.errstate(all="ignore"):
+        rho = np.sqrt(nu * (np.diag(cQc) + kappa * a ** 2))
+        return num / np.outer(rho, rho)
+
+
 def _causes(f):
     """Cause flags of one fit (tests on captured quantities)."""
     causes = []
@@ -678,6 +788,10 @@ def oracle(case, impl):
         bad("inputs_unchanged", "fit changed the user's univariate_expansions dictionaries", causes=["expansions_popped"])
     if not impl.get("refit_same", True):
         bad("refit_same", f"second fit on the same estimator differs from the first (univariate sizes now {impl.get('refit_sizes')}, before {f0['sizes']})", causes=["expansions_popped"] if not f0["exps_unchanged"] else [])
+    if impl.get("ro_changed"):
+        bad("readonly_calls", "fitted state changed by a call that only reads the model: " + "; ".join(impl["ro_changed"]), "MFPCA.transform", causes=["state_written_by_transform"])
+    if not impl.get("ro_rec_same", True):
+        bad("readonly_calls", f"inverse_transform / transform(None) of the same scores differ before and after scoring other data (rel. dev {impl.get('ro_rec_dev')})", "MFPCA.inverse_transform", causes=["state_written_by_transform"])
     if not impl.get("refit_other", True):
         bad("refit_same", "a fit on an estimator that was fitted on other data before (and used) differs from a fresh fit", causes=["stale_state"])
     P = len(case["comps"])
@@ -710,6 +824,18 @@ def oracle(case, impl):
             bad("solver_matrix", f"{tag}: the matrix handed to the eigen-solver is not blockdiag(Gram of the univariate bases) @ cov(univariate scores)", causes=causes)
         nu = np.asarray(f["nu"], dtype=float)
         pos_idx = [m for m in range(K) if nu[m] > 1e-10 * max(nu.max(), 1e-300)]
+        # (0b) the retained pairs solve the eigen-problem of THAT matrix: Z c_m = ν_m c_m (right eigenvectors; the
+        # product is not symmetric, left eigenvectors do not do)
+        cm = np.asarray(f["c"], dtype=float)
+        eig_ok = True
+        if K and _finite(cm):
+            zs = max(float(np.abs(Zi).max()), 1e-300)
+            for m in pos_idx:
+                r = float(np.abs(Zi @ cm[:, m] - nu[m] * cm[:, m]).max())
+                if r > 1e-7 * zs * max(float(np.abs(cm[:, m]).max()), 1e-300) * Mtot:
+                    eig_ok = False
+                    bad("eigen_equation", f"{tag}: retained pair {m} does not solve Z c = ν c for the matrix handed to the solver (residual {r:.3g}, |Z| {zs:.3g})", causes=[c for c in causes if c in ("near_degenerate_eigenvalues",)])
+                    break
         # components with a (numerically) zero eigenvalue are divided by √0: outside the hypotheses, not judged
         finite_pos = _finite(f["pace"]) and all(_finite(np.asarray(x, dtype=float)[pos_idx]) for x in f["psi"])
         if not finite_pos:
@@ -722,7 +848,16 @@ def oracle(case, impl):
         idx = np.ix_(pos_idx, pos_idx)
         dev = float(np.abs(G[idx] - np.eye(len(pos_idx))).max()) if pos_idx else 0.0
         if dev > 1e-6:
-            bad("orthonormal_product", f"{tag}: max |Σ_p⟨ψ_m,ψ_l⟩ − δ| = {dev:.3g} over the {len(pos_idx)} components with positive eigenvalue", causes=causes)
+            cs = list(causes)
+            msg = f"{tag}: max |Σ_p⟨ψ_m,ψ_l⟩ − δ| = {dev:.3g} over the {len(pos_idx)} components with positive eigenvalue"
+            if "univariate_scores_not_centred" in cs and pos_idx:
+                # what the known centring defect explains: with Z c = ν c, Q̃ = Q + κ μμᵀ (μ = column means, κ = N/(N−1))
+                Gp = _gram_explained_by_means(xi, Bd, cm, nu)
+                unexplained = float(np.abs(G[idx] - Gp[idx]).max())
+                if not np.isfinite(unexplained) or unexplained > 1e-6 * max(1.0, float(np.abs(Gp[idx]).max())):
+                    cs.remove("univariate_scores_not_centred")
+                    msg += f"; the non-zero column means of the univariate scores explain only part of it (unexplained {unexplained:.3g})"
+            bad("orthonormal_product", msg, causes=cs)
         # (2) PACE scores: uncorrelated, variance = eigenvalue (univariate FPCA expansions only)
         if all(case["exps"][p]["method"] == "UFPCA" for p in f["order"]) and len(f["pace"]) > 1:
             S = np.asarray(f["pace"], dtype=float)
